@@ -148,6 +148,7 @@ func c17Spaces(c *fw.Ctx) {
 	c17DSSpace(c)
 	c17HashSpace(c)
 	c17CoverSpace(c)
+	c17NoHashSpace(c)
 	c17FixedKeySpace(c)
 	c17FreshKeySpace(c)
 	c17ValiditySpace(c)
@@ -530,6 +531,51 @@ func c17CoverSpace(c *fw.Ctx) {
 							})
 						}
 					}
+				}
+			}
+		})
+}
+
+// c17NoHashSpace: NSEC3 records for which the library cannot compute a name's hash at all — a hash algorithm
+// other than SHA-1 (RFC 5155 defines only 1), a salt that is not hex. No hash lies in no interval and equals no
+// owner hash: Match and Cover are false for every interval shape.
+func c17NoHashSpace(c *fw.Ctx) {
+	offs := c17Offsets()
+	type nh struct {
+		what string
+		hash uint8
+		salt string
+	}
+	kinds := []nh{{"hash algorithm 0", 0, "ab"}, {"hash algorithm 2", 2, "ab"}, {"hash algorithm 255", 255, ""}, {"salt with a non-hex digit", 1, "zz"}, {"salt of odd length", 1, "abc"}}
+	c.Space("cover-no-hash", fmt.Sprintf("NSEC3 records whose hash the library cannot compute (%d kinds: hash algorithm 0, 2, 255; salt not hex, of odd length) × all 81 (owner, next) placements around SHA-1(name) × names {in zone, apex, out of zone}: HashName is empty, Match and Cover are false; non-trivial: wrapping or empty interval", len(kinds)), true,
+		func(emit func(func(*fw.R))) {
+			for _, k := range kinds {
+				for _, name := range []string{"a.example.", "example.", "a.example.org."} {
+					k, name := k, name
+					emit(func(r *fw.R) {
+						h := canon.NSEC3Hash(c10Labels(name), nil, 0)
+						if got := dns.HashName(name, k.hash, 0, k.salt); got != "" {
+							r.Fail("hashname/no-hash", "HashName(%q, hash %d, salt %q) = %q, want \"\" (%s)", name, k.hash, k.salt, got, k.what)
+						}
+						for _, a := range offs {
+							for _, b := range offs {
+								owner, next := c17Add160(h[:], a.d), c17Add160(h[:], b.d)
+								shape, _ := c17Classify(owner, next, h[:])
+								if shape != "normal" {
+									r.Nontrivial()
+								}
+								rec := &dns.NSEC3{Hdr: dns.RR_Header{Name: canon.Base32Hex(owner) + ".example.", Rrtype: dns.TypeNSEC3, Class: dns.ClassINET, Ttl: 300},
+									Hash: k.hash, Salt: k.salt, SaltLength: uint8(len(k.salt) / 2), HashLength: 20, NextDomain: canon.Base32Hex(next)}
+								if rec.Cover(name) {
+									r.Fail("cover/no-hash", "NSEC3 %q next %q with %s (interval %s): Cover(%q) = true although no hash of the name exists", rec.Hdr.Name, rec.NextDomain, k.what, shape, name)
+								}
+								if rec.Match(name) {
+									r.Fail("match/no-hash", "NSEC3 %q with %s: Match(%q) = true although no hash of the name exists", rec.Hdr.Name, k.what, name)
+								}
+							}
+						}
+						r.Sample(func() any { return k.what + ", name " + name })
+					})
 				}
 			}
 		})
